@@ -315,8 +315,18 @@ class StructShim:
         return StructShim.unpack_from(fmt, buffer)
 
 
+L1_MAX_N = 1 << 16
+L1_MAX_K = 64
+
+
 def floor_shim(x):
     if isinstance(x, SymFloat):
+        r = x.ratio
+        if r is not None and r[0].lo >= 0 and r[0].hi < L1_MAX_N and 1 <= r[1] <= L1_MAX_K:
+            # Lemma L1: floor(fl(n / k)) == n // k for 0 <= n < 2^16, 1 <= k <= 64 (discharged by cvc5 for every k used)
+            c = ctx()
+            c.notes.setdefault("L1_k", set()).add(r[1])
+            return r[0] // r[1]
         return x.floor()
     if isinstance(x, SymInt):
         return x
